@@ -82,6 +82,24 @@ class PipelineProp(Prop):
             return g + "/Err:" + obs["err"]
         return g + ("/cut" if obs["cuts"] else "/nocut")
 
+    def extra_counts(self, cases, observations):
+        """reach of the file-naming / chromosome-list part of the correspondence"""
+        import collections
+
+        cnt = collections.Counter()
+        for o in observations:
+            if not isinstance(o, dict) or "err" in o or "asms" not in o:
+                continue
+            keys = [a["key"] for a in o["asms"]]
+            cnt["name_assemblies/" + ("Primary" if "Primary" in keys else "single" if None in keys else "multi")] += 1
+            if o.get("named") is None:
+                cnt["name_assemblies/raised"] += 1
+            elif any(n[0] == "all_haplotigs" for n in o["named"]):
+                cnt["name_assemblies/all_haplotigs merged"] += 1
+            if any(v for _, v in o.get("csv", [])):
+                cnt["chromosome_name_csv/non-empty"] += 1
+        return {"naming_reach": dict(cnt)}
+
     def neighbours(self, case):
         """the same map with every bait boundary moved by a few bases / about one error length"""
         if case.get("pieces") is not None:
